@@ -111,10 +111,13 @@ def replay(beh: list[dict], variant: int) -> list[tuple[str, str]]:
 
 def _chunk(items: list) -> list:
     out = []
+    from checks import store_replay
     for n, s in items:
         beh = json.loads(s)
+        store_replay.set_load_factor(store_replay.rot(n))
         for fp, msg in replay(beh, n):
             out.append((fp, msg, beh))
+    store_replay.set_load_factor(1000)
     return out
 
 
